@@ -17,7 +17,7 @@ SCRIPT = {"n_orders": (4, 12), "p_cancel": 0.1, "p_update": 0.05, "p_replace": 0
 
 
 def plan(tier, seed):
-    cases = _sim.plan_profiles(tier, seed, WEIGHTS, 2400, 80000)
+    cases = _sim.plan_profiles(tier, seed, WEIGHTS, 8000, 100000)
     for c in cases:
         sp = dict(_sim.PROFILES[c["profile"]]["script_params"])
         sp.update(SCRIPT)
